@@ -98,3 +98,9 @@ Definition tls_upstream_case (o : tls_opts) (peer : option cert_kind) : bool :=
 Definition tls_listener_case (o : tls_opts) (peer : option cert_kind) : bool :=
   listener_serves cert_kind ck_chains ck_time o peer.
 Definition tls_listener_starts (o : tls_opts) : bool := is_ok (make_tls_config o true).
+
+(* the upstream's own start-up (initUpstream calls makeTlsConfig(cfg, false)) and a fake server that demands a
+   client certificate: the upstream presents one iff cert/key are configured *)
+Definition tls_upstream_starts (o : tls_opts) : bool := is_ok (make_tls_config o false).
+Definition tls_upstream_case_req (o : tls_opts) (peer : option cert_kind) (server_requires_cert : bool) : bool :=
+  tls_upstream_case o peer && (negb server_requires_cert || o_cert_key o).
